@@ -13,6 +13,8 @@ import PgsVerif.Model.AstSem2
 import PgsVerif.Model.Walk
 import PgsVerif.Model.Closure
 import PgsVerif.Model.Purity
+import PgsVerif.Model.GoNames
+import PgsVerif.Model.GoTypes
 /-
   JSON glue: one `Engine` per correspondence.  Only decoding/encoding lives here; every function
   called is the very definition the theorems in `PgsVerif/Props` are about.
@@ -305,6 +307,19 @@ instance : FromJson WorldO where
     pure ⟨w, ops⟩
 def engineC06 : Engine :=
   mkEngine (I := WorldO) (O := C06Obs) (fun i => c06Model i.w i.ops) (fun i => i.w.bidi) (fun i o => judgeC06 i.w i.ops o)
+def engineC16 : Engine :=
+  mkEngine (I := World) (O := GoNames.C16Obs) GoNames.c16Model (fun _ => true) GoNames.judgeC16
+structure WorldG where
+  w : World
+  srcRel : Bool
+instance : FromJson WorldG where
+  fromJson? j := do
+    let w : World ← fromJson? j
+    let p : String := ((j.getObjValAs? String "param").toOption).getD ""
+    pure ⟨w, p == "paths=source_relative"⟩
+def engineC17 : Engine :=
+  mkEngine (I := WorldG) (O := GoTypes.C17Obs) (fun i => GoTypes.c17Model i.w i.srcRel) (fun i => GoTypes.domC17 i.w)
+    (fun i o => GoTypes.judgeC17 i.w i.srcRel o)
 structure WalkJ where
   start : Ref
   mode : String                       -- "rec", "pass" (PassThroughVisitor) or "nil" (NilVisitor)
@@ -332,6 +347,6 @@ def engineC07 : Engine :=
 end AST
 
 def engines : List (String × Engine) :=
-  [ ("c11", C11.engine), ("fp", FP.engine), ("c15", C15.engine), ("c19", C19.engine), ("c20", C20.engine), ("c18", C18.engine), ("c10", Persist.engineC10), ("c12", Persist.engineC12), ("c11p", Persist.engineC10), ("c13", C13.engine), ("c14", C14.engine), ("c01", AST.engineC01), ("c02", AST.engineC02), ("c03", AST.engineC03), ("c04", AST.engineC04), ("c08", AST.engineC08), ("c09", AST.engineC09), ("c07", AST.engineC07), ("c05", AST.engineC05), ("c06", AST.engineC06) ]
+  [ ("c11", C11.engine), ("fp", FP.engine), ("c15", C15.engine), ("c19", C19.engine), ("c20", C20.engine), ("c18", C18.engine), ("c10", Persist.engineC10), ("c12", Persist.engineC12), ("c11p", Persist.engineC10), ("c13", C13.engine), ("c14", C14.engine), ("c01", AST.engineC01), ("c02", AST.engineC02), ("c03", AST.engineC03), ("c04", AST.engineC04), ("c08", AST.engineC08), ("c09", AST.engineC09), ("c07", AST.engineC07), ("c05", AST.engineC05), ("c06", AST.engineC06), ("c16", AST.engineC16), ("c17", AST.engineC17) ]
 
 end Pgs
